@@ -122,6 +122,22 @@ Definition c17_ok (cm am:idx_mode) (g:grammar) (c:c17_case) : bool :=
     end
   end.
 
+(* `sysl transform`: the relations a script sees are SETS of rows (the schema's slices are tagged unordered). One case =
+   module projection and the rows read back from the value the identity script received; compared relation by relation
+   as sets (mutual inclusion): equal rows of one slice are one element of the set *)
+Definition subset_rows (a b:list row) : bool := forallb (fun r => existsb (row_eqb r) b) a.
+Definition c17_tr_ok (cm am:idx_mode) (g:grammar) (c:c17_case) : bool :=
+  match c with (m, obs, retc) =>
+    match normalize cm am g m, obs with
+    | Refused, ORefused => true
+    | Rows rs, ORows os =>
+        let f := if retc then (fun l => l) else map mask_ret in
+        let h := match g_mods g with ModsSorted => (fun l => l) | _ => map sort_mods end in
+        forallb (fun R => let a := f (rel_rows R rs) in let b := h (f (rel_rows R os)) in subset_rows a b && subset_rows b a) all_rels
+    | _, _ => false
+    end
+  end.
+
 (* one payload alone: what parseReturnPayload answered for this text in application `app` *)
 Inductive pobs := PObsErr | PObsCrash | PObsOk (x:xinfo).
 Definition c17_pay_case := (list str * str * pobs)%type.
